@@ -189,7 +189,10 @@ termination_by structural fuel => fuel
 def illLeave (env : Env) : Nat → Json → Str → Json → Json → Json → Json → Nat → St → Bool
   | 0, _, _, _, _, _, _, _, _ => false
   | fuel + 1, states, name, state, raw, data, ctx, retries, st =>
-    if isTrue (fld state "End") then false
+    if isTrue (fld state "End") then
+      if (render data).length > env.maxData then
+        illErr env fuel states name state raw ctx retries (S "States.DataLimitExceeded") (S "m") st
+      else false
     else match fldStr state "Next" with
       | none => true                                                                 -- site (b)
       | some next =>
@@ -244,7 +247,10 @@ def illState (env : Env) : Nat → Json → Str → Json → Json → Json → N
       | .ok input =>
         match applyPath input ctx (pathArg state "OutputPath") with
         | .error pe => fail pe st
-        | .ok _ => false
+        | .ok out =>
+          if (render out).length > env.maxData then
+            illErr env fuel states name state data ctx retries (S "States.DataLimitExceeded") (S "m") st
+          else false
     else if ty = S "Fail" then false
     else if ty = S "Wait" then
       match applyPath data ctx (pathArg state "InputPath") with
